@@ -129,6 +129,8 @@ class C01(Plan):
         random_histories(g, tier, 60 if tier == "quick" else 2000,
                          [5, 6, 7, 8, 16, 64] + ([1000] if tier != "quick" else []),
                          40 if tier == "quick" else 200)
+        wide_cases(g, WIDE_E, "mut", every=(8 if tier == "quick" else 1))
+        wide_cases(g, WIDE_U8, "io", elem="u8", suffix=(), every=(4 if tier == "quick" else 1))
         return g.cases
 
 
@@ -185,6 +187,7 @@ class C03(Plan):
                                               for (o_st, o_sz) in layouts(N)])
         random_histories(g, tier, 60 if tier == "quick" else 2000, [4, 5, 6, 7, 8, 16, 64],
                          40 if tier == "quick" else 200)
+        wide_cases(g, WIDE_E, "mut", junk=4, every=(16 if tier == "quick" else 2))
         return g.cases
 
 
@@ -215,6 +218,8 @@ class C04(Plan):
                 if j != c.junk:
                     d = g.new(c.N, c.start, c.vals, junk=j, tag="history")
                     d.ops = list(c.ops)
+        for j in JUNKS:
+            wide_cases(g, WIDE_E[::3], "all", junk=j, every=(40 if tier == "quick" else 6))
         return g.cases
 
     def oracle_groups(self, cases, parsed):
@@ -312,6 +317,9 @@ class C05(Plan):
             g.one_step([n for n in ns if k <= 2 * n + 2], [4, 3] if tier != "quick" else [4],
                        fam_destroying, fault="drop:%d" % k,
                        suffix=("push_back 9001:5", "pop_front", "as_slices", "new"))
+        for k in (0, 1, 4, 9):
+            wide_cases(g, WIDE_E[::2], "mut", junk=4, fault="drop:%d" % k, suffix=("push_back 9001:5", "pop_front", "new"),
+                       layouts_per_n=3, every=(24 if tier == "quick" else 4))
         return g.cases
 
     def oracle_op(self, c, k, optext, rec, p):
@@ -373,6 +381,10 @@ class C06(Plan):
                 g.one_step([n for n in ns if k <= 2 * n + 2], [4], fam_usercode(kind),
                            fault="%s:%d" % (kind, k),
                            suffix=("push_back 9001:5", "pop_front", "as_slices", "new"))
+        for kind in ("clone", "call", "next"):
+            for k in (0, 1, 4, 9):
+                wide_cases(g, WIDE_E[::2], "mut", junk=4, fault="%s:%d" % (kind, k), suffix=("push_back 9001:5", "pop_front", "new"),
+                           layouts_per_n=3, every=(60 if tier == "quick" else 8))
         return g.cases
 
     def oracle_op(self, c, k, optext, rec, p):
@@ -399,6 +411,7 @@ class C07(Plan):
                                               ["as_mut_slices " + c.es(sz), "as_slices", "to_vec"]])
         g.one_step(Ns(tier, [0, 1, 2, 3, 4], [0, 1, 2, 3, 4, 5]), [3],
                    lambda c, N, sz: ["range %s %s %s" % (sb, eb, ",".join("n" * (sz + 1))) for (sb, eb, a, b) in all_ranges(sz)])
+        wide_cases(g, WIDE_E, "view", every=(4 if tier == "quick" else 1))
         return g.cases
 
     def oracle_op(self, c, k, optext, rec, p):
@@ -425,6 +438,7 @@ class C08(Plan):
                                     ["into_iter " + s for s in scripts_exhaustive(sz, 2)] +
                                     ["iter n,c,n,b", "iter c", "iter b,c,l", "iter " + ",".join("n" * sz + "c")])
         g.one_step(Ns(tier, [0, 1, 2, 3, 4], [0, 1, 2, 3, 4, 5]), [3], fam_more_iters)
+        wide_cases(g, WIDE_E, "view", every=(6 if tier == "quick" else 1))
         return g.cases
 
 
@@ -443,6 +457,7 @@ class C09(Plan):
                    lambda c, N, sz: fam_drain(c, N, sz, lambda L: ["-", ",".join("n" * L) or "-", ",".join("b" * L) or "-",
                                                                     ",".join(("nb" * L)[:L]) or "-"],
                                               ranges=all_ranges(sz, with_invalid=False)))
+        wide_cases(g, WIDE_E, "drain", junk=4, every=(3 if tier == "quick" else 1))
         return g.cases
 
 
@@ -515,6 +530,7 @@ class C11(Plan):
                                     ["read std " + c.es(m) for m in (0, 1, N + 2)] +
                                     ["fill_buf std", "flush std"] + ["consume std %d" % k for k in (0, 1, N, N + 2, MAX)],
                    elem="u8")
+        wide_cases(g, WIDE_E, "all", every=(16 if tier == "quick" else 2))
         return g.cases
 
 
@@ -584,6 +600,7 @@ class C13(Plan):
                                 c.ops.append("eq_slice %s %s" % (form, c.es(k, list(xs))))
         # Debug of the iterators and of a Drain: the elements still to come
         g.one_step(range(0, top + 1), [3, 4], fam_debug_views, suffix=("new",))
+        wide_cases(g, WIDE_E, "view", every=(12 if tier == "quick" else 2))
         return g.cases
 
     def oracle_groups(self, cases, parsed):
@@ -647,6 +664,7 @@ class C14(Plan):
         g = Gen(seed)
         g.one_step(Ns(tier, [0, 1, 2, 3, 4], [0, 1, 2, 3, 4, 5, 6]), [1, 2], fam_io(["std"]), elem="u8", suffix=())
         io_histories(g, tier, 100 if tier == "quick" else 3000, ["std"], [0, 1, 2, 3, 4, 5, 8, 16, 64], 30)
+        wide_cases(g, WIDE_U8, "io", elem="u8", suffix=(), every=(2 if tier == "quick" else 1))
         return g.cases
 
     def oracle_op(self, c, k, optext, rec, p):
@@ -669,6 +687,7 @@ class C16(Plan):
         g = Gen(seed)
         g.one_step(Ns(tier, [0, 1, 2, 3], [0, 1, 2, 3, 4, 5]), [2], fam_io(fams), elem="u8", suffix=())
         io_histories(g, tier, 60 if tier == "quick" else 2000, fams, [0, 1, 2, 3, 4, 5, 8, 16], 30)
+        wide_cases(g, WIDE_U8, "io", elem="u8", suffix=(), fams=tuple(fams), every=(4 if tier == "quick" else 1))
         return g.cases
 
     def gen(self, tier, seed):
@@ -690,6 +709,8 @@ class C16(Plan):
             if p is None:
                 continue
             t = c.ops[0].split(" ")
+            if len(t) < 2 or t[1] not in ("std", "eio", "aio"):
+                continue
             fam = t[1]
             call = " ".join([t[0]] + [re.sub(r"\d+:", "", x) for x in t[2:]])
             key = (c.N, c.start, tuple(c.vals), c.junk, call)
@@ -724,6 +745,7 @@ class C18(Plan):
                 g.one_step([n for n in ns if k <= 2 * n + 2], [4], fam_usercode(kind), fault="%s:%d" % (kind, k),
                            suffix=("push_back 9001:5", "new"))
         random_histories(g, tier, 40 if tier == "quick" else 1000, [3, 4, 5, 8, 16], 40)
+        wide_cases(g, WIDE_E, "all", every=(16 if tier == "quick" else 3))
         return g.cases
 
     def cross_cfg(self, results):
@@ -832,6 +854,7 @@ class C20(Plan):
             out += ["drain %s %s n,b drop" % (sb, eb) for (sb, eb, a, b) in all_ranges(sz, with_invalid=False)]
             return out
         g.one_step(ns, [3], fam, suffix=())
+        wide_cases(g, WIDE_E, "mut", suffix=(), every=(6 if tier == "quick" else 1))
         return g.cases
 
     def oracle_op(self, c, k, optext, rec, p):
@@ -893,6 +916,8 @@ class C17(Plan):
         g.one_step(Ns(tier, [0, 1, 2, 3], [0, 1, 2, 3, 4]), [2], fam_io(["std"]), elem="u8", suffix=())
         random_histories(g, tier, 40 if tier == "quick" else 1000, [5, 8, 16, 64] + ([1000] if tier != "quick" else []),
                          40 if tier == "quick" else 150)
+        wide_cases(g, WIDE_E, "all", every=(16 if tier == "quick" else 2))
+        wide_cases(g, WIDE_U8, "io", elem="u8", suffix=(), every=(4 if tier == "quick" else 1))
         return g.cases
 
     def oracle_op(self, c, k, optext, rec, p):
